@@ -719,6 +719,24 @@ def run(tier):
             else:
                 rejected.append((signature(text, len(pre), syms), text, "fixed", out[1]))
 
+    # ---- the hand-written programs of the shared pool (lead): all of them are
+    # accepted by the pinned tree; a change that starts rejecting one drops it
+    # silently from every pool consumer (C07, C11, C14, C15, C17 only look at
+    # accepted programs), so acceptance is demanded here - gcc decides below
+    # whether a rejected one is valid C at all (several use GNU extensions)
+    from models import pool_adapters, mini_pool
+
+    hand_total = 0
+    for text in list(pool_adapters.EXTRA) + list(mini_pool.PROGRAMS):
+        out = outcome(text)
+        total += 1
+        hand_total += 1
+        if out[0] == "ok":
+            accepted += 1
+        else:
+            rejected.append(("reject:pool-program:" + (core.reject_sig(text) or "?"), text, "pool", out[1]))
+    R.set("hand_written_pool_programs", hand_total)
+
     # ---- long-lookahead family (lead): valid declarators whose prefix before the
     # declared name is long, at every offset into the token stream - the
     # declarator-name lookahead and every mark/reset must work at any distance
